@@ -142,8 +142,22 @@ def run(ctx, prop):
     oracle_fail, disagree, samples = [], [], []
     hist = {"accept": 0, "reject_cycle": 0, "reject_unresolved": 0, "same_name_two_dirs": 0, "symlink": 0, "diamond": 0}
     distinct = set()
-    for i in range(n):
-        case = gen_include_case(ctx.rng, f"C12-{ctx.seed}-{i}", symlinks=(i % 4 == 0))
+    def twin_case(k, spell, cyclic):
+        """the SAME include text with a directory part used from two different directories: it
+        names two different files (resolution is relative to the includer, never remembered by
+        its text)"""
+        def st(i):
+            return {"k": "struct", "name": f"M{i}", "fields": [{"type": "uint8", "count": 1, "name": "a"}]}
+        inner = {"inc": "inc/t.idl", "dot": "./t.idl", "up": "../shared/t.idl"}[spell]
+        where = {"inc": ("a/inc/t.idl", "b/inc/t.idl"), "dot": ("a/t.idl", "b/t.idl"), "up": ("shared/t.idl", "x/shared/t.idl")}[spell]
+        second_dir = "x/b" if spell == "up" else "b"
+        paths = ["main.idl", "a/u.idl", f"{second_dir}/u.idl", where[0], where[1]]
+        incs = {0: ["a/u.idl", f"{second_dir}/u.idl"], 1: [inner], 2: [inner], 3: [], 4: (["../u.idl"] if cyclic and spell != "up" and spell != "inc" else (["../../b/u.idl"] if cyclic and spell == "inc" else []))}
+        files = [{"path": p_, "nodes": [{"k": "include", "path": x} for x in incs[i]] + [st(i)]} for i, p_ in enumerate(paths)]
+        return {"id": f"C12-twin-{k}", "files": files, "main": "main.idl", "incdirs": [], "dirs": ["."], "symlinks": []}
+    fixed = [twin_case(k, sp, cy) for k, (sp, cy) in enumerate([("inc", False), ("dot", False), ("up", False), ("dot", True), ("inc", True)])]
+    for i in range(n + len(fixed)):
+        case = fixed[i] if i < len(fixed) else gen_include_case(ctx.rng, f"C12-{ctx.seed}-{i}", symlinks=(i % 4 == 0))
         with C.Scratch() as tmp:
             root = os.path.join(tmp, "src")
             idl.render_case(case, root)
